@@ -367,6 +367,11 @@ void fb_poly_set_trino(int a) {
 
 	fb_null(f);
 
+	if (a <= 0 || a >= RLC_FB_BITS) {
+		RLC_THROW(ERR_NO_VALID);
+		return;
+	}
+
 	RLC_TRY {
 		ctx->fb_pa = a;
 		ctx->fb_pb = ctx->fb_pc = 0;
@@ -394,6 +399,11 @@ void fb_poly_set_penta(int a, int b, int c) {
 	ctx_t *ctx = core_get();
 
 	fb_null(f);
+
+	if (c <= 0 || b <= c || a <= b || a >= RLC_FB_BITS) {
+		RLC_THROW(ERR_NO_VALID);
+		return;
+	}
 
 	RLC_TRY {
 		fb_new(f);
